@@ -10,6 +10,11 @@
 (*    AWK function of the program shadows, or "none","xnum":{"ok","neg",       *)
 (*    "e10","digits"}: an extreme result (res "ext") as the program printed it *)
 (*    with %.0f and %e -- sign, decimal exponent, integer digits}              *)
+(* Calls inside whole programs (one trace = one run):                         *)
+(*   {"ev":"step","op":"pos","sig":S,"args":[...],"pos":position,"o":"ok"|    *)
+(*    "abort"|"panic"|...,"calls":n,"after":bool,"endmark":bool,"own":bool}    *)
+(*   {"ev":"step","op":"keep","rk","policy","hold","args":[...],"o","calls",   *)
+(*    "kept":[{"key","val"}]}   (Native!PosOutcome, Native!KeepOutcome)        *)
 (* The same operators as MC_Native / Gen_Native decide (Native!OutcomeConv);  *)
 (* the table of a recorded run has other names than the model's, so of the    *)
 (* dispatch only "the function named in the program received the call, and it *)
@@ -39,16 +44,46 @@ Explains(ev) ==
 
 Show(ex) == IF ex.o \in {"ok", "abort"} THEN ex ELSE [o |-> ex.o]
 
+\* calls inside whole programs (Native!PosOutcome, Native!KeepOutcome)
+ExpectPos(ev) == PosOutcome(ev.sig, ev.args, ev.pos)
+ExplainsPos(ev) ==
+  LET ex == ExpectPos(ev)
+  IN /\ ex.o = ev.o /\ ev.calls = ex.calls /\ ev.endmark = ex.endmark
+     /\ ex.afterJudged => ev.after = ex.after
+     /\ ex.o = "abort" => ev.own
+ExpectKeep(ev) == KeepOutcome([rk |-> ev.rk, policy |-> ev.policy, hold |-> ev.hold, args |-> ev.args])
+ExplainsKeep(ev) ==
+  LET ex == ExpectKeep(ev)
+  IN /\ ev.o = ex.o /\ ev.calls = ex.calls /\ Len(ev.kept) = Len(ex.kept)
+     /\ {ev.kept[i] : i \in 1..Len(ev.kept)} = {ex.kept[i] : i \in 1..Len(ex.kept)}
+
 TStep ==
   /\ l <= NLog /\ Log[l].ev = "step"
+  /\ Log[l].op = "call"
   /\ LET ev == Log[l]
      IN /\ Assert(WellFormedSig(ev.sig) /\ (\A j \in 1..Len(ev.args) : ev.args[j] \in Values) /\ ev.cf \in ConvFmts
                   /\ Len(ev.awk) = Len(ev.args),
                   <<"recorded call outside the specified domain", l>>)
         /\ IF Explains(ev) THEN l' = l + 1
            ELSE Reject(l, [op |-> "call", expected |-> Show(Expect(ev))]) /\ l' = AfterNextReset(l)
+TStepPos ==
+  /\ l <= NLog /\ Log[l].ev = "step" /\ Log[l].op = "pos"
+  /\ LET ev == Log[l]
+     IN /\ Assert(WellFormedSig(ev.sig) /\ ev.sig.shape = "ok" /\ ev.sig.res = "const" /\ ev.pos \in Positions
+                  /\ (\A j \in 1..Len(ev.args) : ev.args[j] \in Values),
+                  <<"recorded call position outside the specified domain", l>>)
+        /\ IF ExplainsPos(ev) THEN l' = l + 1
+           ELSE Reject(l, [op |-> "pos", expected |-> ExpectPos(ev)]) /\ l' = AfterNextReset(l)
+TStepKeep ==
+  /\ l <= NLog /\ Log[l].ev = "step" /\ Log[l].op = "keep"
+  /\ LET ev == Log[l]
+     IN /\ Assert(ev.rk \in KeepRks /\ ev.policy \in KeepPolicies(ev.rk) /\ ev.hold \in KeepHolds
+                  /\ (\A j \in 1..Len(ev.args) : ev.args[j] \in PlainValues),
+                  <<"recorded kept results outside the specified domain", l>>)
+        /\ IF ExplainsKeep(ev) THEN l' = l + 1
+           ELSE Reject(l, [op |-> "keep", expected |-> ExpectKeep(ev)]) /\ l' = AfterNextReset(l)
 TReset == l <= NLog /\ Log[l].ev = "reset" /\ l' = l + 1
 TDone == l = NLog + 1 /\ PrintT("TRACE-END") /\ l' = l + 1
-Next == TStep \/ TReset \/ TDone
+Next == TStep \/ TStepPos \/ TStepKeep \/ TReset \/ TDone
 Spec == Init /\ [][Next]_vars
 =============================================================================
